@@ -146,7 +146,7 @@ class FrameSim(Sim):
             g = None if (t.data.size == 1 and rng.random() < 0.3) else enc(small_values(rng, t.data.shape, np.float64, -2, 2))
             ev = {"k": "backward", "root": root, "g": g, "layout": rng.choice(["C", "C", "F", "strided", "offset"])}
             if kn["faulty"] and rng.random() < 0.2:
-                ev["fault"] = {"kind": rng.choice(["alloc", "interrupt"]), "at": rng.randint(1, 8)}
+                ev["fault"] = {"kind": rng.choice(["alloc", "interrupt", "exit"]), "at": rng.randint(1, 8)}
             return ev
         r = rng.random()
         if r < 0.06:
@@ -191,8 +191,14 @@ class FrameSim(Sim):
         shapes = [tuple(b), (b[1],), (1, b[1]), (b[0], 1), (b[1], b[0]), (), (b[1], b[1]), (2, b[0], b[1]), (1, 2, 4), (1, 2, 3, 4), (2, 2, 3), (2, b[1], 2)]
         w = [6, 3, 2, 2, 3, 1, 2, 2, 2, 2, 2, 2]
         shape = rng.choices(shapes, w)[0]
+        if rng.random() < 0.02:
+            shape = (rng.choice([257, 300]), 256)          # rarely a LARGE tensor (size-dependent fast paths)
         dt = np.float32 if rng.random() < 0.2 else np.float64
-        vals = small_values(rng, shape, dt, -2, 2, avoid_zero=rng.random() < 0.5)
+        if len(shape) == 2 and shape[1] == 256:
+            rs = np.random.RandomState(rng.randrange(2 ** 31))
+            vals = (rs.randint(-128, 128, size=shape) / 64.0).astype(dt)
+        else:
+            vals = small_values(rng, shape, dt, -2, 2, avoid_zero=rng.random() < 0.5)
         if rng.random() < 0.15:
             vals = np.abs(vals) / 4 + 0.1        # probabilities for bce
         layout = rng.choice(["C", "C", "F", "strided", "neg", "offset"]) if len(shape) >= 1 else "C"
@@ -209,9 +215,9 @@ class FrameSim(Sim):
             return None
         name, ins, args = got
         nout = args.get("n", 1) if name == "unbind" else 1
-        ev = {"k": "op", "op": name, "in": ins, "args": args, "out": list(range(st.next_id, st.next_id + nout)), "repeat": rng.random() < 0.3}
+        ev = {"k": "op", "op": name, "in": ins, "args": args, "out": list(range(st.next_id, st.next_id + nout)), "repeat": rng.choice([0, 0, 0, 1, 1, 3])}
         if st.knobs["faulty"] and rng.random() < 0.08:
-            ev["fault"] = {"kind": rng.choice(["alloc", "interrupt"]), "at": rng.randint(1, 3)}
+            ev["fault"] = {"kind": rng.choice(["alloc", "interrupt", "exit"]), "at": rng.randint(1, 3)}
         return ev
 
     def _gen_bn(self, rng, st):
@@ -354,18 +360,19 @@ class FrameSim(Sim):
             self._reg_tensor(st, o)
         if ev.get("repeat") and not write:
             first = [self._take(t.data) for t in res]
-            try:
-                with quiet():
-                    again = ops.as_list(ops.apply_op(SG, name, [G.T[i] for i in ins], ev["args"]))
-            except SimFault:
-                raise
-            except Exception as e:
-                st.fail("C11.repeatable", f"{name} succeeded once and raised {type(e).__name__} when repeated on unchanged operands")
-            st.probes["repeat_op_bit_identical"] += 1
-            for k, (a, t) in enumerate(zip(first, again)):
-                if self._take(t.data) != a:
-                    st.fail("C11.repeatable", f"{name}: repeating the operation on unchanged operands gave different bytes (output {k})", op=name)
-            self._frame(st, f"repeated forward of {name}", write)
+            for rep in range(int(ev["repeat"])):
+                try:
+                    with quiet():
+                        again = ops.as_list(ops.apply_op(SG, name, [G.T[i] for i in ins], ev["args"]))
+                except SimFault:
+                    raise
+                except Exception as e:
+                    st.fail("C11.repeatable", f"{name} succeeded once and raised {type(e).__name__} when repeated on unchanged operands")
+                st.probes["repeat_op_bit_identical"] += 1
+                for k, (a, t) in enumerate(zip(first, again)):
+                    if self._take(t.data) != a:
+                        st.fail("C11.repeatable", f"{name}: repetition #{rep + 2} of the operation on unchanged operands gave different bytes (output {k})", op=name)
+                self._frame(st, f"repeated forward of {name}", write)
 
     def _ev_clone(self, st, ev, how="clone"):
         G = st.G
